@@ -336,11 +336,13 @@ def runCall (fields : Array Field) (tops : List Stmt) (recs : List Json) (limit 
     (implFinal : Option (Array Int)) (allF : List Nat) (boundTops : List Stmt := [])
     (draws : Option (List (Int × Int × Int)) := none) (orderPairs : List (Nat × Nat) := [])
     (implBounds : Option (Array Bounds.RL) := none)
-    (marks : List (Nat × Nat × Nat) := []) (distDefsE : Array (List (Expr × Option Expr × Expr)) := #[]) : Except String Json := do
+    (marks : List (Nat × Nat × Nat) := []) (distDefsE : Array (List (Expr × Option Expr × Expr)) := #[])
+    (extraRefs : List (Nat × List Nat) := []) (implHoles : List Nat := [])
+    (semTops : Option (Array Int → Except String (List Stmt)) := none) : Except String Json := do
   let Γ := envΓ fields
   let vals0 : Array Int := fields.map (·.val)
   let vn : Nat → String := fun i => match fields[i]? with | some f => f.name | none => s!"?{i}"
-  let st := RandSets.build tops marks
+  let st := RandSets.build tops marks extraRefs
   let rsl := RandSets.randSets st
   let dropped := (List.range tops.length).filter fun k => !(rsl.any fun rs => rs.hard.any (fun c => c.1 == k) )
       && (match tops[k]? with | some (.soft _) => false | _ => true)
@@ -397,7 +399,14 @@ def runCall (fields : Array Field) (tops : List Stmt) (recs : List Json) (limit 
           | some es => enumFold (.var i f.ty.w) f.ty.w none es
           | none => none) else none
       | none => none
-    let hardS := rs.hard.map (·.2)
+    -- `semTops`: statements whose terms are built when their rand set is (the sum of a list reads the
+    -- list's size at that moment); `tops` then only decides which fields a statement mentions
+    let hardC : List (Nat × Stmt) ← match semTops with
+      | some f => do
+          let ts ← f vals
+          pure (rs.hard.map fun c => (c.1, (ts[c.1]?).getD c.2))
+      | none => pure rs.hard
+    let hardS := hardC.map (·.2)
     let hard := hardS.filterMap (lowerStmt Γ ρ false)
     let softE := RandSets.sortDesc rs.soft
     let soft := softE.filterMap fun s => lowerStmt Γ ρ true (RandSets.softStmt s)
@@ -441,9 +450,13 @@ def runCall (fields : Array Field) (tops : List Stmt) (recs : List Json) (limit 
         final := final ++ [(i, v)]
     | _ => pure ()
     -- reference semantics on the final values of this rand set
-    let valsO := match implFinal with | some a => a | none => vals
+    -- `implHoles`: fields the implementation no longer has after the call (elements a random-size
+    -- list was grown by and does not expose); the model's own read-back stands in for them
+    let valsO := match implFinal with
+      | some a => implHoles.foldl (fun (acc : Array Int) i => acc.setIfInBounds i (vals.getD i 0)) a
+      | none => vals
     let ρf := envρ valsO
-    let refFail := (rs.hard.filter fun c => !(sholds Γ ρf c.2)).map (·.1)
+    let refFail := (hardC.filter fun c => !(sholds Γ ρf c.2)).map (·.1)
     let typeFail := rfields.filter fun i =>
       !(decide (Pyvsc.Spec.InType (Γ i).w (Γ i).s (ρf i))) || !(enumOk fields valsO [i])
     -- exhaustive reference: satisfiability and the exact greedy soft set
@@ -501,7 +514,9 @@ def runCall (fields : Array Field) (tops : List Stmt) (recs : List Json) (limit 
         | some gs => jList (fun g => jList (fun i => Json.str (vn i)) g) gs
         | none => Json.null)]
     k := k + 1
-  let valsO := match implFinal with | some a => a | none => vals
+  let valsO := match implFinal with
+    | some a => implHoles.foldl (fun (acc : Array Int) i => acc.setIfInBounds i (vals.getD i 0)) a
+    | none => vals
   let droppedFail := dropped.filter fun k => match tops[k]? with
     | some s => !(sholds Γ (envρ valsO) s)
     | none => false
